@@ -11,9 +11,39 @@ import json
 from ..gen.data import h
 
 
+_current = [None]      # the harness whose run is in progress (is_type_of functions live in the schema, not in a run)
+
+
+def is_type_of_factory(type_name):
+    def is_type_of(value, info):
+        hz = _current[0]
+        ok = isinstance(value, dict) and value.get('__tn') == type_name
+        if hz is None or hz.sync_only:
+            return ok
+        label = json.dumps(info.path.as_list()) + '@is:' + type_name
+        if hz._p('type', label) >= hz.p_type_async:
+            return ok
+        return hz._type(label, ok)
+    return is_type_of
+
+
+def hide_typename(v):
+    """Values without a __typename key, so that abstract types can only be resolved through is_type_of."""
+    if isinstance(v, dict) and '__typename' in v:
+        v = dict(v)
+        v['__tn'] = v.pop('__typename')
+        return v
+    if isinstance(v, list):
+        return [hide_typename(x) for x in v]
+    if type(v).__name__ == 'FailingList':
+        return type(v)(hide_typename(v.items), v.exc)
+    return v
+
+
 class Harness:
     def __init__(self, sched, value_fn, seed, p_async=0.5, p_item_async=0.2, p_iter=0.15, p_type_async=0.3, log=None, schema=None,
-                 sync_only=False):
+                 sync_only=False, hide_typename=False):
+        self.hide = hide_typename
         self.sched = sched
         self.value_fn = value_fn
         self.seed = seed
@@ -36,7 +66,8 @@ class Harness:
         self.log.append(('invoke', tuple(path)))
 
         def compute():
-            return self.value_fn(path, info.parent_type.name, info.field_name, args, info.return_type)
+            v = self.value_fn(path, info.parent_type.name, info.field_name, args, info.return_type)
+            return hide_typename(v) if self.hide else v
         if self.sync_only or self._p('field', label) >= self.p_async:
             self.mode[label] = 'sync'
             try:
